@@ -77,7 +77,12 @@ type reply struct {
 	infos []*model.ProviderInfo
 	info  *model.ProviderInfo
 	err   error
+	then  func() // run by the source when it has its answer, just before it returns it (a caller giving up at that very moment)
 }
+
+// LateCancel: in the behaviour being replayed the caller's context is cancelled at the moment the last source of a refresh has
+// answered -- from then on a refresh runs to its publication whatever the context says (ProviderCache.tla, RefreshCancel).
+var LateCancel bool
 
 type call struct {
 	src   int // 1-based index
@@ -111,12 +116,19 @@ func (s *source) FetchAll(ctx context.Context) ([]*model.ProviderInfo, error) {
 	s.sim.arrive <- c
 	r := <-c.reply
 	if s.via == nil || errors.Is(r.err, context.Canceled) {
+		if r.then != nil {
+			r.then()
+		}
 		return r.infos, r.err
 	}
 	s.mu.Lock()
 	s.next = r
 	s.mu.Unlock()
-	return s.via.FetchAll(ctx)
+	infos, err := s.via.FetchAll(ctx)
+	if r.then != nil {
+		r.then()
+	}
+	return infos, err
 }
 
 func (s *source) Fetch(ctx context.Context, pid peer.ID) (*model.ProviderInfo, error) {
